@@ -106,7 +106,7 @@ class CaseBuilder:
         return hashlib.sha1(json.dumps([self.prog, hist], sort_keys=True).encode()).hexdigest()
 
 def gen_case(rng, cid, dbdir=None, cyclic=False, modes=("sync", "det"), cancel_p=0.25, restart_p=0.15,
-             nsteps=(3, 7), db_p=0.5, sigchange_p=0.3, adversarial=False, allow=None):
+             nsteps=(3, 7), db_p=0.5, sigchange_p=0.3, rewire_p=0.3, rewire_cyclic=False, adversarial=False, allow=None, verify=False, repeat_p=0.0):
     prog = gen_program(rng, cyclic=cyclic) if allow is None else gen_program(rng, cyclic=cyclic, allow=allow)
     ext = {l: rng.randrange(2) for l in LEAVES}
     cb = CaseBuilder(cid, prog, ext)
@@ -124,9 +124,18 @@ def gen_case(rng, cid, dbdir=None, cyclic=False, modes=("sync", "det"), cancel_p
             l = rng.choice(LEAVES); cb.mutate(l, 1 - cb.ext[l])
         elif r < 0.28 + restart_p:
             newprog = None
-            if rng.random() < sigchange_p:
+            r2 = rng.random()
+            if r2 < sigchange_p:
                 newprog = json.loads(json.dumps(cb.prog))
                 k = rng.choice(KEYS); newprog[k]["sig"] += 1
+            elif r2 < sigchange_p + rewire_p:
+                # a rule is redefined (new wiring, new signature); with cyclic=True the new wiring may
+                # close a cycle through dependencies recorded by earlier builds
+                newprog = json.loads(json.dumps(cb.prog))
+                cyc2 = cyclic or (rewire_cyclic and rng.random() < 0.6)
+                fresh = gen_program(rng, cyclic=cyc2) if allow is None else gen_program(rng, cyclic=cyc2, allow=allow)
+                k = rng.choice(DERIVED)
+                oldsig = newprog[k]["sig"]; newprog[k] = fresh[k]; newprog[k]["sig"] = oldsig + 1
             cb.engine(db=dbpath, newprog=newprog)
         else:
             k = rng.choice(KEYS if rng.random() < 0.3 else DERIVED)
@@ -134,7 +143,11 @@ def gen_case(rng, cid, dbdir=None, cyclic=False, modes=("sync", "det"), cancel_p
             if kw["mode"] == "det": kw["defer"] = rng.choice([100, 100, 60, 30])
             cancel = rng.random() < cancel_p
             if cancel: kw["cancel"] = rng.randint(1, 45)
+            if verify: kw["verify"] = 1
             cb.build(k, **kw)
             if cancel and rng.random() < 0.9: cb.reset()
+            if rng.random() < repeat_p:          # immediate rebuild of the same key: a null build
+                kw2 = dict(kw); kw2.pop("cancel", None); kw2["seed"] = rng.randrange(1 << 30)
+                cb.build(k, **kw2)
     cb.end()
     return cb
